@@ -164,7 +164,13 @@ pub fn templates(t: &mut Tape, fam: Fam) -> Vec<Vec<u8>> {
                     d.extend_from_slice(&b.bz2);
                     let mut items = vec![info, d];
                     if total == 2 {
-                        items.push(vec![0xfe, 0xff, 0xff, 0xff, 9, 0, 0, 0x80, 2, 1, 0xe0, 0x04]);
+                        let second = vec![0xfe, 0xff, 0xff, 0xff, 9, 0, 0, 0x80, 2, 1, 0xe0, 0x04];
+                        // either arrival order
+                        if t.draw(DATA, 2) == 0 {
+                            items.push(second);
+                        } else {
+                            items.insert(1, second);
+                        }
                     }
                     items.push(rules);
                     items
@@ -521,6 +527,47 @@ fn http_templates(t: &mut Tape) -> Vec<Vec<u8>> {
 }
 
 pub fn mutate(t: &mut Tape, d: &mut Vec<u8>, extreme: bool) {
+    // text-level damage that single-byte mutations practically never produce
+    if t.draw(DATA, 12) == 0 {
+        match t.draw(DATA, 4) {
+            0 if !d.is_empty() => {
+                // the reply starts with a multi-byte character instead of its first byte
+                let c = *t.pick(DATA, &["é", "€", "🎮", "\u{feff}"]);
+                d.splice(0 .. 1, c.bytes());
+            }
+            1 if d.len() > 4 => {
+                // a multi-byte character at a random place (cut points, fixed-width slices)
+                let at = t.draw(DATA, d.len() as u64) as usize;
+                let c = *t.pick(DATA, &["é", "€", "🎮"]);
+                d.splice(at .. at, c.bytes());
+            }
+            2 => {
+                // every decimal number becomes an extreme one (two fields that are only dangerous together)
+                let big = *t.pick(DATA, BIG_NUMBERS);
+                let mut out = Vec::with_capacity(d.len());
+                let mut i = 0;
+                while i < d.len() {
+                    if d[i].is_ascii_digit() {
+                        while i < d.len() && d[i].is_ascii_digit() {
+                            i += 1;
+                        }
+                        out.extend_from_slice(big.as_bytes());
+                    } else {
+                        out.push(d[i]);
+                        i += 1;
+                    }
+                }
+                out.truncate(65_507);
+                *d = out;
+            }
+            _ => {
+                // drop a prefix
+                let n = t.draw(DATA, d.len().min(24) as u64 + 1) as usize;
+                d.drain(.. n);
+            }
+        }
+        return;
+    }
     let choices = if extreme { 12 } else { 10 };
     match t.draw(DATA, choices) {
         0 => {
